@@ -49,6 +49,7 @@ from sympy.polys.galoistools import gf_gcdex
 GO_FILE = '/repo/finitefield/conway/cpimport.go'
 OUT_DIR = '/verif/lean/Algobra/Certs'
 STRIDES = 32
+BIG_MODULES = 32   # thorough tier: number of Certs/BigNN.lean modules
 CHUNK = 60000
 TD_BOUND = 2 ** 32      # must equal Algobra.C04Check.tdBound
 WORD = 2 ** 64
@@ -101,8 +102,24 @@ def rabin_max_deg():
     return int(m.group(1))
 
 
-def rabin_cert(p, n, cs):
-    """for every prime r | n the inverse of x^(p^(n/r)) - x modulo f (coefficients low first)"""
+def barrett_mu(p, n, cs):
+    """mu = floor(x^(2n-2) / f) over F_p, coefficients low first (n-1 of them); only a speed hint for
+    Certs/CheckerBig.lean (quotient estimate in the modular reduction), soundness does not depend on it"""
+    f = np.array([c % p for c in cs], dtype=np.int64)
+    rem = np.zeros(2 * n - 1, dtype=np.int64)
+    rem[2 * n - 2] = 1
+    mu = [0] * (n - 1)
+    for i in range(2 * n - 2, n - 1, -1):
+        c = int(rem[i])
+        mu[i - n] = c
+        if c:
+            rem[i - n:i + 1] = (rem[i - n:i + 1] - c * f) % p
+    return mu
+
+
+def rabin_cert(p, n, cs, with_mu=False):
+    """for every prime r | n the inverse of x^(p^(n/r)) - x modulo f (coefficients low first);
+    with_mu: additionally the pseudo-item 0:mu (see barrett_mu)"""
     negf = np.array([(-c) % p for c in cs[:n]], dtype=np.int64)
 
     def mulmod(a, b):
@@ -148,12 +165,107 @@ def rabin_cert(p, n, cs):
     if not np.array_equal(y, x):
         sys.exit('gen_certs: entry (%d,%d) fails Rabin\'s test (x^(p^n) != x)' % (p, n))
     out.sort()
+    if with_mu:
+        out.insert(0, (0, barrett_mu(p, n, cs)))
     return ' '.join('%d:%s' % (r, ','.join(map(str, v))) for r, v in out)
 
 
+def write_if_changed(path, text):
+    """do not touch files whose content is unchanged (keeps lake's traces valid)"""
+    if os.path.exists(path) and open(path, encoding='utf-8').read() == text:
+        return False
+    with open(path, 'w', encoding='utf-8') as fh:
+        fh.write(text)
+    return True
+
+
+def big_cost(p, n):
+    """estimated evaluation cost of Certs/CheckerBig.rabinOKBig on an entry: n Frobenius steps, each a p-th
+    power (bitlen(p)-1 squarings + popcount(p)-1 multiplications), each multiplication O(n) interpreted steps
+    on numbers of about n*log2(n^2 p^3) bits"""
+    mults = (p.bit_length() - 1) + (bin(p).count('1') - 1)
+    bits = (n * n * p ** 3).bit_length() + 2
+    return n * mults * n * (1.0 + n * bits / 20000.0)
+
+
+def gen_big(ents):
+    """thorough tier: Certs/BigData.lean, Certs/Big00..BigNN.lean, Certs/BigAll.lean"""
+    maxdeg = rabin_max_deg()
+    todo = [(i, p, n, cs) for i, (p, n, cs) in enumerate(ents) if p ** n >= WORD and n > maxdeg]
+    print('big entries (p^n >= 2^64, degree > %d):' % maxdeg, len(todo))
+    # longest-processing-time-first assignment to BIG_MODULES modules
+    load = [0.0] * BIG_MODULES
+    assign = {}
+    for i, p, n, cs in sorted(todo, key=lambda t: -big_cost(t[1], t[2])):
+        k = min(range(BIG_MODULES), key=lambda j: load[j])
+        assign[i] = k
+        load[k] += big_cost(p, n)
+    if todo:
+        print('big modules: %d, estimated load max/mean = %.3f' % (BIG_MODULES, max(load) / (sum(load) / BIG_MODULES)))
+    out = ['-- GENERATED by /verif/tools/gen_certs.py from finitefield/conway/cpimport.go — do not edit',
+           '-- (database index, Big module number, Rabin certificate "0:mu r1:inv1 r2:inv2 ..."); UNTRUSTED hints,',
+           '-- re-verified by Certs/CheckerBig.lean',
+           'namespace Algobra.C04Check.BigData', '',
+           '/-- number of parallel Big modules -/', 'def bigModules : Nat := %d' % BIG_MODULES, '']
+    for j, (i, p, n, cs) in enumerate(todo):
+        cert = rabin_cert(p, n, cs, with_mu=True)
+        assert '"' not in cert
+        out.append('/-- entry (%d, %d) -/' % (p, n))
+        out.append('def item%d : Nat × Nat × String := (%d, %d, "%s")' % (j, i, assign[i], cert))
+    out.append('')
+    out.append('def bigRaw : List (Nat × Nat × String) := [%s]' % ', '.join('item%d' % j for j in range(len(todo))))
+    out.append('')
+    out.append('end Algobra.C04Check.BigData')
+    ch = write_if_changed(os.path.join(OUT_DIR, 'BigData.lean'), '\n'.join(out) + '\n')
+    for k in range(BIG_MODULES):
+        ents_k = ['(%d,%d)' % (p, n) for i, p, n, cs in todo if assign[i] == k]
+        txt = ('-- GENERATED by /verif/tools/gen_certs.py — do not edit\n'
+               'import Algobra.Certs.CheckerBig\nimport Algobra.Certs.BigData\nnamespace Algobra.C04Check\n\n'
+               '-- entries: %s\n'
+               'theorem big%02d : bigSliceOf BigData.bigRaw %d = true := by native_decide\n\n'
+               'end Algobra.C04Check\n' % (' '.join(ents_k), k, k))
+        ch |= write_if_changed(os.path.join(OUT_DIR, 'Big%02d.lean' % k), txt)
+    # remove stale modules of an earlier run with more modules
+    k = BIG_MODULES
+    while os.path.exists(os.path.join(OUT_DIR, 'Big%02d.lean' % k)):
+        os.remove(os.path.join(OUT_DIR, 'Big%02d.lean' % k))
+        k += 1
+    al = ['-- GENERATED by /verif/tools/gen_certs.py — do not edit']
+    al += ['import Algobra.Certs.Big%02d' % k for k in range(BIG_MODULES)]
+    al += ['namespace Algobra.C04Check', '',
+           '/-- every entry with p^n ≥ 2^64 and degree > rabinMaxDeg has an item in a module < bigModules -/',
+           'theorem big_cover : bigCoverOf BigData.bigRaw BigData.bigModules = true := by native_decide', '',
+           'theorem big_all (k : Nat) (hk : k < BigData.bigModules) : bigSliceOf BigData.bigRaw k = true := by',
+           '  match k, hk with']
+    al += ['  | %d, _ => exact big%02d' % (k, k) for k in range(BIG_MODULES)]
+    al += ['  | k + %d, h => exact absurd h (by simp [BigData.bigModules])' % BIG_MODULES, '']
+    if todo:
+        i, p, n, cs = max(todo, key=lambda t: t[2])
+        al += ['/-- (index, p, n) of a database entry outside the scope of the default tier (non-vacuity witness) -/',
+               'def bigExample : Nat × Nat × Nat := (%d, %d, %d)' % (i, p, n), '',
+               'theorem big_example_ok : (match dbArr[bigExample.1]? with',
+               '    | some e => (e.1 == bigExample.2.1) && (e.2.1 == bigExample.2.2) &&',
+               '        decide (2 ^ 64 ≤ e.1 ^ e.2.1) && decide (rabinMaxDeg < e.2.1)',
+               '    | none => false) = true := by native_decide', '']
+    al += ['end Algobra.C04Check']
+    ch |= write_if_changed(os.path.join(OUT_DIR, 'BigAll.lean'), '\n'.join(al) + '\n')
+    print('wrote Big files to', OUT_DIR, '' if ch else '(unchanged)')
+
+
 def main():
+    args = sys.argv[1:]
+    if any(a not in ('--big-only', '--no-big') for a in args):
+        sys.exit('usage: gen_certs.py [--big-only | --no-big]')
     ents = read_entries()
     print('entries:', len(ents))
+    if '--no-big' not in args:
+        gen_big(ents)
+    if '--big-only' not in args:
+        gen_default(ents)
+
+
+def gen_default(ents):
+    """default tier: Certs/Data.lean, Certs/Sweep??.lean, Certs/All.lean"""
     facs = {}
     primes = set()
     for i, (p, n, cs) in enumerate(ents):
